@@ -299,3 +299,77 @@ impl CacheHandler {
         out_result
     }
 }
+
+/// Verification hooks (cargo feature `verif-hooks`): the cache's own insert / lookup / expire
+/// functions on a cache value the caller owns, so that they can be driven under tokio's paused
+/// clock.  No logic of its own.
+#[cfg(feature = "verif-hooks")]
+pub mod verif {
+    use super::*;
+
+    pub struct Cache {
+        handler: CacheHandler,
+        cache: super::Cache,
+    }
+
+    fn key(qname: &dnspkt::Domain, qtype: dnspkt::Type, edns_do: bool, cd: bool) -> CacheKey {
+        CacheKey {
+            qname: qname.clone(),
+            qtype,
+            edns_do,
+            cd,
+        }
+    }
+
+    impl Cache {
+        pub async fn new() -> Self {
+            Cache {
+                handler: CacheHandler::new().await,
+                cache: super::Cache::new(),
+            }
+        }
+
+        /// `calculate_expiry` followed by the insert `handle_query` performs (only when > 0).
+        pub fn resolve(
+            &mut self,
+            qname: &dnspkt::Domain,
+            qtype: dnspkt::Type,
+            edns_do: bool,
+            cd: bool,
+            out_result: &Result<dnspkt::DNSPkt, Error>,
+        ) -> Duration {
+            let expiry = self.handler.calculate_expiry(out_result);
+            if expiry > Duration::from_secs(0) {
+                self.handler.insert_cache_entry(
+                    &mut self.cache,
+                    key(qname, qtype, edns_do, cd),
+                    out_result,
+                    expiry,
+                );
+            }
+            expiry
+        }
+
+        pub fn lookup(
+            &self,
+            qname: &dnspkt::Domain,
+            qtype: dnspkt::Type,
+            edns_do: bool,
+            cd: bool,
+        ) -> Option<Result<dnspkt::DNSPkt, Error>> {
+            CacheHandler::get_entry(&self.cache, &key(qname, qtype, edns_do, cd), Instant::now())
+        }
+
+        pub fn expire(&mut self) {
+            CacheHandler::expire(&mut self.cache, Instant::now());
+        }
+
+        pub fn len(&self) -> usize {
+            self.cache.len()
+        }
+
+        pub fn is_empty(&self) -> bool {
+            self.cache.is_empty()
+        }
+    }
+}
